@@ -263,6 +263,12 @@ def run(repo, rep, tier):
                 )
     # ---------------------------------------------------------------- R6.4 template instantiation in fill/_numpy
     for c in prims:
+        m = models[c.name]
+        if getattr(m, "template_filled", False):
+            f = repo.own_method(c, "fill")
+            r4.ob(False)
+            rep.finding("R6.4", f, f.node, f"the template `{m.template}` itself is the receiver of a fill: every bin created from it afterwards "
+                        f"starts non-empty and all bins created this way are one shared object", stmt=f"template {m.template} filled")
         for name in ("fill", "_numpy"):
             self_slot_sinks(repo, rep, ck, models, c, name, "R6.4", r4)
     # ---------------------------------------------------------------- R6.1 purity
